@@ -225,6 +225,8 @@ class World:
             out = ("foo", {"k": of})
         elif shape == "pair":
             out = (of, build_value(b["fresh2"]) if b.get("fresh2") is not None else None)
+        elif shape == "none":
+            out = None
         elif shape == "scalar":
             out = 42
         else:
@@ -299,6 +301,10 @@ def _ref_validate_one(v, schema_kinds, optional, opts, check_types):
     if check_types:
         if optional and v is None:
             return "ok", v
+        if v is None:
+            # None where a (non-Optional) DataFrame[Model] is declared is not valid data: the body must not run / the
+            # value must not reach the caller; which exception reports it is not documented (any will do)
+            return "any-error", None
         if not is_pd(v):
             # check_types documents pass-through only for None under Optional; anything else non-frame
             # is outside the generated domain
@@ -587,6 +593,8 @@ def compare(exp, obs, case):
         # both rejected the input
         if orr is None:
             out.append(("rejected-input-call-returned-without-error", brief))
+        elif er == "any-error":
+            pass
         elif not _schemaish(orr):
             out.append(("unexpected-exception:" + orr.split(":")[-1], brief))
         elif er != "schema-any" and er != orr:
@@ -622,6 +630,8 @@ def compare(exp, obs, case):
         elif er == "Boom" or orr == "Boom":
             if er != orr:
                 out.append(("body-exception-replaced", brief))
+        elif er == "any-error":
+            pass
         elif not _schemaish(orr):
             out.append(("unexpected-exception:" + orr.split(":")[-1], brief))
         elif er != "schema-any" and er != orr:
